@@ -143,11 +143,13 @@ def _run(chk):
     common.quiet_trackpy()
     chk.coq()
     n = 120 if chk.tier == 'quick' else 4000
-    terms, metas = [], []
+    terms, metas, dterms, dmetas = [], [], [], []
     for k in range(n):
         c = c02.gen_case(chk.rng, chk.tier)
         c['max_size'] = linkgen.LIMIT
         c02.safe_strategy(c)
+        if chk.rng.random() < 0.12:
+            c['strategy'] = 'drop'      # labels must be valid for every link_strategy; 'drop' is judged by its own monitor
         if linkgen.max_inrange(c['frames'], c['sr'], c['memory']) > 8:
             chk.tally('skipped: neighbour cap binding'); continue
         frames = c['frames']
@@ -216,9 +218,11 @@ def _run(chk):
         # link/link_df_iter pass coordinates in pos_columns order (z,y,x) = reversed generator order: distances unchanged
         if isinstance(c['sr'], tuple) and entry != 'link_iter':
             c2['sr'] = tuple(c['sr'])   # table columns are reversed (cols[::-1]) and so is the data: same pairing
-        terms.append(c02.case_term(c2, labs)); metas.append((entry, c2, labs, numbers))
-    res = common.coq_eval_lists(chk.work, IMPORTS, FUNC, terms)
-    for (entry, c2, labs, numbers), r in zip(metas, res):
+        (dterms if c2['strategy'] == 'drop' else terms).append(c02.case_term(c2, labs)); (dmetas if c2['strategy'] == 'drop' else metas).append((entry, c2, labs, numbers))
+    from props import c03
+    res = common.coq_eval_lists(chk.work, IMPORTS, FUNC, terms) + common.coq_eval_lists(chk.work, c03.IMPORTS, c03.FUNC_DROP, dterms, tag='drop')
+    CODES.update({9: c03.CODES[9]})
+    for (entry, c2, labs, numbers), r in zip(metas + dmetas, res):
         chk.count((entry, c02.jsonable(c2, labs)), sum(len(f) for f in c2['frames']) >= 6)
         if r != 0:
             chk.violation('%s:%s' % (entry, CODES.get(r, r)), '%s(%s, memory=%d): %s' % (entry, c2['strategy'], c2['memory'], CODES.get(r, r)),
